@@ -1,6 +1,7 @@
 (** C07 - the receive path performs no out-of-bounds access, no undefined conversion and no abort.
     This file holds only the property theorems (each closed by [exact]) and their Print Assumptions.
-    Models: ImplApp.v (m17-demod's frame handlers), ImplAx25.v (ax25_frame), ImplRxIndex.v (framer, LICH, clock);
+    Models: ImplApp.v (m17-demod's frame handlers), ImplAx25.v (ax25_frame), ImplRxIndex.v (framer, LICH, clock),
+    ImplCorrelator.v (Correlator, SyncWord, the demodulator's sample-index data flow; constants in gen/ConstsCorrelator.v);
     every array / vector / string access in them goes through the checked accessors of Checked.v, whose failure
     results are [Oob site] (bounds), [Throw site] (uncaught C++ exception) and [Diverge] (loop fuel).
     "= Ok _" therefore says: none of them.  All literal offsets / sizes / masks come from gen/ConstsApp.v,
@@ -10,6 +11,7 @@
 From Coq Require Import NArith ZArith QArith Arith Bool String List.
 From M17 Require Import ImplGolay LemmasGolay_D LemmasGolay_E ImplCallsign LemmasCallsign.
 From M17 Require Import Checked LemmasChecked ConstsApp ImplAx25 LemmasAx25 ImplApp LemmasApp LemmasPacket ImplRxIndex LemmasRxIndex.
+From M17 Require Import ConstsCorrelator ImplCorrelator LemmasCorrelator.
 Import ListNotations.
 Local Open Scope nat_scope.
 
@@ -159,3 +161,108 @@ Example c07_ax25_instance : is_okb (parse (repeat 130%N 40)) = true /\ is_okb (p
 Proof. vm_compute. split; reflexivity. Qed.
 Example c07_clock_instance : sample_index_of (19 # 2) = Some 0%Z /\ sample_index_of (37 # 8) = Some 5%Z /\ sample_index_of 10 = Some 0%Z.
 Proof. vm_compute. repeat split. Qed.
+
+(** 8. Correlator<FloatType> (Correlator.h).  Sample values are an arbitrary type V: only the index behaviour is modelled.
+       buffer_ has corr_buffer_size = SYMBOLS * SAMPLES_PER_SYMBOL entries, tmp has corr_tmp_size entries (both read from the header).
+    8a. for EVERY history of sample() calls from construction (any initial contents of buffer_ / tmp, which have no initialiser):
+        no store leaves buffer_, the invariant buffer_pos_ < size /\ prev_buffer_pos_ < size holds,
+        buffer_pos_ = (number of samples) mod size, and index() <= SAMPLES_PER_SYMBOL - 1 *)
+Theorem c07_correlator_positions_in_range : forall (V : Type) (buffer tmp values : list V),
+  length buffer = corr_buffer_size -> length tmp = corr_tmp_size ->
+  exists c', corr_run (corr_init buffer tmp) values = Ok c' /\
+    (length (c_buffer c') = corr_buffer_size /\ length (c_tmp c') = corr_tmp_size /\
+     c_pos c' < corr_buffer_size /\ c_prev c' < corr_buffer_size) /\
+    c_pos c' = length values mod corr_buffer_size /\ corr_index c' <= corr_sps - 1.
+Proof. exact correlator_positions_lemma. Qed.
+Print Assumptions c07_correlator_positions_in_range.
+
+(** 8b. correlate(sync): under that invariant every read buffer_[pos] is inside, for a sync word of ANY length
+        (the C++ passes SYMBOLS entries); one (sync[i], buffer_[pos]) pair per entry *)
+Theorem c07_correlator_correlate_in_range : forall (V : Type) (c : correlator V) (sync : list Z),
+  (length (c_buffer c) = corr_buffer_size /\ length (c_tmp c) = corr_tmp_size /\ c_pos c < corr_buffer_size /\ c_prev c < corr_buffer_size) ->
+  exists xs, corr_correlate c sync = Ok xs /\ map fst xs = sync.
+Proof. exact corr_correlate_ok. Qed.
+Print Assumptions c07_correlator_correlate_in_range.
+
+(** 8c. outer_symbol_levels(sample_index): the EXACT safe range is sample_index < buffer size (80):
+        - below it, all reads buffer_[sample_index], buffer_[i] and all stores tmp[index++] are inside; the number of tmp entries written is
+          the number of positions sample_index, +SAMPLES_PER_SYMBOL, ... below the buffer size (1 <= index <= tmp size), the object's
+          buffer and positions are unchanged;
+        - for sample_index < SAMPLES_PER_SYMBOL (what the demodulator passes, 8f) exactly SYMBOLS entries are written;
+        - from the buffer size on (the parameter is a size_t; the demodulator's sample_index is a uint8_t, so 80..255 are representable)
+          the very first read buffer_[sample_index] is out of bounds. *)
+Theorem c07_correlator_outer_symbol_levels_range : forall (V : Type) (c : correlator V) (si : nat),
+  (length (c_buffer c) = corr_buffer_size /\ length (c_tmp c) = corr_tmp_size /\ c_pos c < corr_buffer_size /\ c_prev c < corr_buffer_size) ->
+  (si < corr_buffer_size ->
+     exists c' xs index, corr_outer_symbol_levels c si = Ok (c', xs, index) /\
+       (length (c_buffer c') = corr_buffer_size /\ length (c_tmp c') = corr_tmp_size /\ c_pos c' < corr_buffer_size /\ c_prev c' < corr_buffer_size) /\
+       1 <= index <= corr_tmp_size /\ corr_buffer_size <= si + index * corr_sps < corr_buffer_size + corr_sps) /\
+  (si < corr_sps -> exists c' xs, corr_outer_symbol_levels c si = Ok (c', xs, corr_symbols)) /\
+  (corr_buffer_size <= si -> corr_outer_symbol_levels c si = Oob "Correlator::outer_symbol_levels: min_level = buffer_[sample_index]").
+Proof. exact correlator_osl_range_lemma. Qed.
+Print Assumptions c07_correlator_outer_symbol_levels_range.
+
+(** 8d. apply(func, uint8_t index): in range for EVERY index (the loop reads nothing once i >= size) *)
+Theorem c07_correlator_apply_in_range : forall (V : Type) (c : correlator V) (index : nat),
+  (length (c_buffer c) = corr_buffer_size /\ length (c_tmp c) = corr_tmp_size /\ c_pos c < corr_buffer_size /\ c_prev c < corr_buffer_size) ->
+  exists xs, corr_apply c index = Ok xs.
+Proof. exact corr_apply_ok. Qed.
+Print Assumptions c07_correlator_apply_in_range.
+
+(** 8e. SyncWord<Correlator>: for EVERY history of (sample(); operator()) pairs from construction, every float decision being arbitrary
+        (the value returned by triggered() and whether it is != 0 are inputs of each call; abs(f) > abs(peak) and peak > 0 are arbitrary
+        functions): the reads of correlate(sync_word_) and the store samples_[correlator.index()] are inside, every value returned by
+        operator() (= timing_index_, the demodulator's sync_index) is <= SAMPLES_PER_SYMBOL - 1. *)
+Theorem c07_syncword_accesses_in_range : forall (V : Type) (zero : V) (abs_gt : V -> V -> bool) (is_pos : V -> bool)
+  (word : list Z) (samples buffer tmp : list V) (calls : list (V * bool * V)),
+  length samples = sw_samples_size -> length buffer = corr_buffer_size -> length tmp = corr_tmp_size ->
+  exists s' c' ts, sw_run zero abs_gt is_pos (sw_init word samples) (corr_init buffer tmp) calls = Ok (s', c', ts) /\
+    length (sw_samples s') = sw_samples_size /\ sw_timing s' <= corr_sps - 1 /\ Forall (fun t => t <= corr_sps - 1) ts.
+Proof. exact syncword_lemma. Qed.
+Print Assumptions c07_syncword_accesses_in_range.
+
+(** one call with an arbitrary correlator index: the store is inside exactly for index < SAMPLES_PER_SYMBOL (samples_'s size),
+    and find_peak's uint8_t walk over samples_ leaves timing_index_ <= SAMPLES_PER_SYMBOL - 1 *)
+Theorem c07_syncword_store_range : forall (V : Type) (zero : V) (abs_gt : V -> V -> bool) (is_pos : V -> bool)
+  (s : syncword V) (nonzero : bool) (value : V) (cindex : nat),
+  length (sw_samples s) = sw_samples_size -> sw_timing s < sw_samples_size ->
+  (cindex < sw_samples_size -> exists s' t, sw_step zero abs_gt is_pos s nonzero value cindex = Ok (s', t) /\
+      length (sw_samples s') = sw_samples_size /\ t = sw_timing s' /\ t <= corr_sps - 1) /\
+  (sw_samples_size <= cindex -> sw_step zero abs_gt is_pos s true value cindex = Oob "SyncWord::operator(): samples_[correlator.index()] = value").
+Proof. exact syncword_store_range_lemma. Qed.
+Print Assumptions c07_syncword_store_range.
+
+(** 8f. M17Demodulator: where sample indices come from.  [demod_run] executes ANY sequence of the blocks of M17Demodulator.h that touch
+        sample_index, sync_sample_index, ClockRecovery::sample_index_, the correlator or a sync word (the control state is not modelled:
+        any order is allowed, which contains the real ones), and reports every index handed to Correlator::outer_symbol_levels ([UOsl]),
+        every sample_index compared with correlator.index() ([UCompare]) and every sync_sample_index handed to ClockRecovery ([UClockArg]).
+        HYPOTHESIS (the same as in c07_sample_index_in_range, and used through that theorem): each estimate that the floating-point
+        Kalman / fmod code hands to int8_t(round(.)) is a finite number in [0, 10].
+        Then nothing faults (no access outside an array, no undefined float -> int8_t conversion) and every such index is < SAMPLES_PER_SYMBOL. *)
+Theorem c07_sample_index_sources_in_range : forall (V : Type) (zero : V) (abs_gt : V -> V -> bool) (is_pos : V -> bool)
+  (buffer tmp s1 s2 s3 s4 : list V) (events : list (devent V)),
+  length buffer = corr_buffer_size -> length tmp = corr_tmp_size ->
+  length s1 = sw_samples_size -> length s2 = sw_samples_size -> length s3 = sw_samples_size -> length s4 = sw_samples_size ->
+  Forall (event_estimate_ok (fun e => (0 <= e)%Q /\ (e <= 10)%Q)) events ->
+  exists d' uses, demod_run zero abs_gt is_pos (demod_init buffer tmp s1 s2 s3 s4) events = Ok (d', uses) /\
+    Forall (fun u => match u with UOsl i | UCompare i | UClockArg i => i < corr_sps end) uses /\
+    d_sample_index d' < corr_sps /\ d_sync_sample_index d' < corr_sps /\ (0 <= d_clock_index d' <= samples_per_symbol - 1)%Z.
+Proof. exact sample_index_sources_in_range. Qed.
+Print Assumptions c07_sample_index_sources_in_range.
+
+(** what the hypothesis of 8f is needed for (concrete run, V = Z, |f| > |p| and p > 0 as in the C++): with the estimate 19.5
+    (c07_sample_index_needs_the_hypothesis: index 10) the demodulator's sample_index becomes 10 and IS handed to
+    outer_symbol_levels - still inside the 80-entry buffer by 8c (7 tmp entries written), i.e. a wrong sampling point but no fault;
+    with the estimate 200 the int8_t conversion itself is undefined. *)
+Definition ex_abs_gt (a b : Z) : bool := (Z.abs b <? Z.abs a)%Z.
+Definition ex_is_pos (a : Z) : bool := (0 <? a)%Z.
+Definition ex_demod : demod Z :=
+  demod_init (repeat 0%Z corr_buffer_size) (repeat 0%Z corr_tmp_size) (repeat 0%Z sw_samples_size) (repeat 0%Z sw_samples_size)
+             (repeat 0%Z sw_samples_size) (repeat 0%Z sw_samples_size).
+Definition ex_events (csw : Q) : list (devent Z) :=
+  repeat (DSample 1%Z) 6 ++ [DFrame csw; DSyncTrack WLsf UNonzero true 5%Z; DSyncTrack WLsf UNonzero false 0%Z].
+Example c07_sample_index_sources_instance :
+  (exists d', demod_run 0%Z ex_abs_gt ex_is_pos ex_demod (ex_events (19 # 2)) = Ok (d', [UCompare 0; UOsl 0])) /\
+  (exists d', demod_run 0%Z ex_abs_gt ex_is_pos ex_demod (ex_events (39 # 2)) = Ok (d', [UCompare 0; UOsl 10])) /\
+  (exists site, demod_run 0%Z ex_abs_gt ex_is_pos ex_demod (ex_events (200 # 1)) = Oob site).
+Proof. split; [|split]; vm_compute; eexists; reflexivity. Qed.
